@@ -104,6 +104,8 @@ EDGE_BASES = [
 #: files; they go through the oracle unfaulted and with every single systematic fault applied.
 REGRESSION_INPUTS = [
     ('F1', '2 3 0'),
+    ('surrogate-name', '2 1\n1 1 0\n1 2 0\n0\n"A\ud800"\n"B"\n"t \udfff"\n'),
+    ('surrogate-junk', '2 1\n1 1 0\n1 2 0\n0\n"A"\n"B"\n"t"\n\udc80 junk\n'),
     ('F1b', '3 1\n1 1 0\n0\n"A"'),
     ('F2', '3 1\n-22\n1 1 0\n1 2 0\n1 3 0\n0\n"A"\n"B"\n"C"\n"t"\n'),
     ('F3', '3 1\n' + '9' * 4400 + ' 1 0\n0\n"A"\n"B"\n"C"\n"t"\n'),
@@ -430,7 +432,12 @@ def evaluate(R, data, io_fault=None, entry='path', clock=False, path=None):
         try:
             text = data.decode('utf-8-sig')
         except UnicodeDecodeError:
-            entry = 'path'
+            try:
+                # a text with lone surrogates: it cannot lie on disk as UTF-8, but it is a string a caller can hand
+                # to ElectionProfile(data=...) ("arbitrary unicode")
+                text = data.decode('utf-8-sig', 'surrogatepass')
+            except UnicodeDecodeError:
+                entry = 'path'
     res['entry'] = entry
     if entry == 'main' and getattr(R, 'Droop', None) is None:
         entry = res['entry'] = 'path'
